@@ -61,6 +61,16 @@ def gen_block(rng, i, ngen, depth, ctr, budget, allow_ret_val):
             out.append(["yieldLast"])
         elif r < 0.46:
             out.append(["log", next(ctr)])
+        elif r < 0.54 and depth < 3:
+            # `with start_action(..):` - left through `__exit__(type, value, tb)` when an exception (a thrown one, the
+            # GeneratorExit of close()) passes; what follows the block in a handler runs in the enclosing context again
+            a = 1000 * (i + 1) + next(ctr)
+            out.append(["wenter", a])
+            out += gen_block(rng, i, ngen, depth + 1, ctr, budget, allow_ret_val)
+            if rng.random() < 0.5:
+                out.append(["yield", rng.randint(0, 9)])
+            out.append(["log", next(ctr)])
+            out.append(["wexit"])
         elif r < 0.62 and depth < 3:
             a = 1000 * (i + 1) + next(ctr)
             out.append(["enter", a])
@@ -130,7 +140,7 @@ def gen_case(rng, big):
         if r < 0.17:
             script.append(["enter", rng.choice(DRIVER_ACTIONS)])
         elif r < 0.32:
-            script.append(["exit"])
+            script.append(["exit", "finish"] if rng.random() < 0.4 else ["exit"])
         else:
             i = rng.randrange(ngen)
             inp = gen_inp(rng, 0.92 if i not in started else 0.4)
@@ -322,8 +332,24 @@ def body(env, i, code):
         pc += 1
         op = ins[0]
         if mode[0] == "prop":
-            if op == "try":
+            if op in ("try", "wenter"):
+                # a `try` or `with` block that starts after the point where the exception arose: skipped as a whole
                 mode = ("prop", mode[1], mode[2] + 1)
+            elif op == "wexit":
+                if mode[2] > 0:
+                    mode = ("prop", mode[1], mode[2] - 1)
+                elif acts:
+                    # the exception leaves a `with <action>:` block: `__exit__(type, value, traceback)`; whatever it returns,
+                    # a real `with` would go on raising unless the value is true (recorded as an observation)
+                    a = acts.pop()
+                    e = mode[1]
+                    ev = e() if isinstance(e, type) else e
+                    try:
+                        r = a.__exit__(type(ev), ev, ev.__traceback__)
+                        if r:
+                            env.obs.append(dict(gen=i, tag=-1, seen="__exit__ returned a true value", expected=None))
+                    except Exception as e2:  # noqa - e.g. the token belongs to another Context
+                        mode = ("prop", e2, 0)
             elif op == "catch":
                 if mode[2] == 0:
                     if isinstance(mode[1], Thrown) or ins[1]:
@@ -338,13 +364,13 @@ def body(env, i, code):
                 mode = ("normal",) if mode[1] == 0 else ("skip", mode[1] - 1)
             continue
         try:
-            if op == "enter":
+            if op in ("enter", "wenter"):
                 a = start_action(action_type="g%d:a%d" % (i, ins[1]))
                 env.ids[id(a)] = ins[1]
                 env.keep.append(a)
                 a.__enter__()
                 acts.append(a)
-            elif op == "exit":
+            elif op in ("exit", "wexit"):
                 if acts:
                     a = acts.pop()
                     a.__exit__(None, None, None)
@@ -435,10 +461,18 @@ def _run_real(case, wrapped):
             if s[0] == "enter":
                 cm = A[s[1]].context()
                 cm.__enter__()
-                stack.append(cm)
+                stack.append((cm, s[1]))
             elif s[0] == "exit":
                 if stack:
-                    stack.pop().__exit__(None, None, None)
+                    cm, a = stack.pop()
+                    cm.__exit__(None, None, None)
+                    if len(s) > 1 and s[1] == "finish":
+                        # the surrounding action ends here (a generator started in it may outlive it); the driver's next
+                        # action of that number is a new one
+                        A[a].finish()
+                        env.keep.append(A[a])
+                        A[a] = start_action(action_type="d%d" % a)
+                        env.ids[id(A[a])] = a
             else:
                 out = resume_via(env, env.gens[s[1]], s[2], s[3] if len(s) > 3 else None)
                 env.events.append(dict(kind="top", gen=s[1], out=out))
@@ -447,7 +481,7 @@ def _run_real(case, wrapped):
     finally:
         while stack:
             try:
-                stack.pop().__exit__(None, None, None)
+                stack.pop()[0].__exit__(None, None, None)
             except Exception:  # noqa
                 pass
     res = dict(steps=steps, obs=list(env.obs), events=list(env.events), nested=list(env.nested), tbs=list(env.tbs))
@@ -716,6 +750,15 @@ CORPUS = [
     # an action spans a yield and the next resumption comes from another Context / another thread
     dict(gens=[[["enter", 11], ["log", 1], ["yield", 1], ["log", 2], ["exit"], ["log", 3], ["yield", 2]]],
          script=[["enter", 1], ["resume", 0, ["send", None]], ["resume", 0, ["send", None], "copy"]], family="corpus"),
+    # a generator that outlives the action it was started in and is resumed, outside any action of its own, from other contexts
+    dict(gens=[[["log", 1], ["yield", 1], ["log", 2], ["yield", 2], ["log", 3], ["enter", 11], ["yield", 3], ["exit"], ["log", 4]]],
+         script=[["enter", 1], ["resume", 0, ["send", None]], ["exit", "finish"], ["enter", 2], ["resume", 0, ["send", None]], ["exit", "finish"],
+                 ["resume", 0, ["send", None]], ["enter", 3], ["resume", 0, ["send", None], "copy"]], family="corpus"),
+    # closed / thrown into while suspended inside nested `with` blocks; the clean-up after the inner block logs
+    dict(gens=[[["wenter", 11], ["try"], ["wenter", 12], ["yield", 1], ["wexit"], ["catch", True], ["log", 1], ["endcatch"], ["log", 2], ["wexit"], ["log", 3]]],
+         script=[["enter", 1], ["resume", 0, ["send", None]], ["resume", 0, ["close"]]], family="corpus"),
+    dict(gens=[[["wenter", 11], ["try"], ["wenter", 12], ["log", 1], ["yield", 1], ["wexit"], ["catch", False], ["log", 2], ["yield", 2], ["endcatch"], ["log", 3], ["wexit"], ["log", 4]]],
+         script=[["enter", 2], ["resume", 0, ["send", None]], ["exit"], ["resume", 0, ["throw", 0]], ["enter", 3], ["resume", 0, ["send", None], "copy"]], family="corpus"),
     dict(gens=[[["enter", 11], ["yield", 1], ["exit"], ["enter", 12], ["yield", 2], ["exit"], ["log", 3]]],
          script=[["resume", 0, ["send", None], "fresh"], ["enter", 2], ["resume", 0, ["send", None], "thread"], ["resume", 0, ["send", None]]], family="corpus"),
     # GeneratorExit that is thrown in explicitly, or raised by the body itself, comes out as GeneratorExit (only close() absorbs it);
